@@ -172,7 +172,16 @@ def call(ex, f, args, kw, st, node=None):
     if f is type:
         o = args[0]
         if isinstance(o, Rec):
-            return [(st, st.objs[o.oid].get('__class__'))]
+            flds = st.objs[o.oid]
+            if flds.get('__class__') is None and flds.get('CLS') is not None:
+                # a token / group record: its class is the value of its CLS field when that is one known class
+                import z3 as _z3
+                zc = _z3.simplify(flds['CLS'])
+                for k, c in ex.W.cls_const.items():
+                    if _z3.eq(zc, c):
+                        return [(st, k)]
+                raise OutsideSubset('type() of a node whose class is not known')
+            return [(st, flds.get('__class__'))]
         h = getattr(ex, 'type_of', None)
         if h:
             return h(o, st)
